@@ -29,7 +29,8 @@
                      (every access of queue is under ThreadedTaskDispatcher.lock)
      WSvc..WEnd2     service(): R requests[0]; R connected, R will_close; the task (WApp: ENV decides
                      the next write_soon or the end and close_on_finish); write_soon
-                     (WWs1..WWsRel); _flush_outbufs_below_high_watermark (WHw..);
+                     (WWs1..WWsRel); _flush_outbufs_below_high_watermark (WHw.., with the
+                     connected re-check WHwC under the lock);
                      close branch (WCl..), keep branch (WK..), worker-side send_continue
                      (WSc.., its flush with do_close=False); R connected -> pull_trigger (WEnd1, WEnd2)
    Granularity: every acquire / try-acquire / release / wait / wake / notify of
@@ -119,7 +120,7 @@ Inductive iopc :=
 | IoScRel (its : list item) (ww : bool)
 | IoScX1 | IoScX2
 | IoRcvRel (ww : bool)
-| IoHW1 | IoHW2 | IoTry
+| IoHW1 | IoHW2 | IoHW2b | IoTry
 | IoFlL | IoNfy | IoNfy2 | IoRelL | IoRelX | IoSetWc
 | IoHW3 | IoHW4 | IoHW5 | IoHW6 | IoHW7
 | IoHC (k : hcont) | IoHCb (k : hcont) | IoHCc (k : hcont) | IoHCd (k : hcont)
@@ -129,7 +130,7 @@ Inductive wpc :=
 | WIdle | WAcq | WNotif
 | WSvc | WSvc2 | WApp
 | WWs1 (n : Z) | WWs2 (n : Z)
-| WHw1 (st : site) | WHwA | WHwF (st : site)
+| WHw1 (st : site) | WHwA | WHwC (st : site) | WHwF (st : site)
 | WHwEP (st : site) | WHwEW (st : site) | WHwEPk (st : site) (cap : bool) | WHwEN (st : site)
 | WHwL1 (st : site) | WHwL2 (st : site) | WHwLP (st : site) | WHwLW (st : site) | WHwLPk (st : site)
 | WHwLN (st : site)
@@ -356,7 +357,9 @@ Definition step_io (c : cfg) (s : state) (ch : choice) : option (state * list la
   (* handle_write_event (R connected) -> handle_write *)
   (* both branches flush through _flush_some_if_lockable since 8bcf05e *)
   | IoHW1, CIo => ret (goio s (if Nat.eqb (nreq s) 0 then IoTry else IoHW2)) [LR AConn; LR AReq]
-  | IoHW2, CIo => ret (goio s (if sb c <=? total s then IoTry else IoHW3)) [LR ATot]
+  | IoHW2, CIo => ret (goio s (if sb c <=? total s then IoTry else IoHW2b)) [LR ATot]
+  | IoHW2b, CIo =>      (* or self.total_outbufs_len > self.adj.outbuf_high_watermark (daf1a85) *)
+      ret (goio s (if hw c <? total s then IoTry else IoHW3)) [LR ATot]
   | IoTry, CIo =>
       if free (olock s) then ret (goio (set_olock s (Some TIO)) IoFlL) [LTry LkO]
       else ret (goio s IoHW3) [LTry LkO]
@@ -372,7 +375,7 @@ Definition step_io (c : cfg) (s : state) (ch : choice) : option (state * list la
       | SDisc _ => ret (goio s (IoHCb HcFlushL)) [LSend]
       | SErr => ret (goio s IoRelX) [LSend]
       end
-  | IoNfy, CIo => ret (goio s (if total s <? hw c then IoNfy2 else IoRelL)) [LR ATot]
+  | IoNfy, CIo => ret (goio s (if total s <=? hw c then IoNfy2 else IoRelL)) [LR ATot]   (* <= since 6aba4bf *)
   | IoNfy2, CIo => ret (goio (set_ws s (notify_o (ws s))) IoRelL) [LNotify CvO]
   | IoRelL, CIo => ret (goio (set_olock s None) IoHW3) [LRel LkO]
   | IoRelX, CIo => ret (goio (set_olock s None) IoSetWc) [LRel LkO]
@@ -431,10 +434,12 @@ Definition step_w (c : cfg) (s : state) (i : nat) (ch : choice) : option (state 
       if free (olock s) then ret (setw (set_olock s (Some me)) i (WHw1 (SWr n))) [LAcq LkO] else None
   (* _flush_outbufs_below_high_watermark *)
   | WHw1 st, CW _ =>
-      ret (go (if hw c <? total s then match st with SWr _ => WHwF st | SEnd => WHwA end
+      ret (go (if hw c <? total s then match st with SWr _ => WHwC st | SEnd => WHwA end
                else match st with SWr n => WWs3 n | SEnd => WK3 end)) [LR ATot]
   | WHwA, CW _ =>
-      if free (olock s) then ret (setw (set_olock s (Some me)) i (WHwF SEnd)) [LAcq LkO] else None
+      if free (olock s) then ret (setw (set_olock s (Some me)) i (WHwC SEnd)) [LAcq LkO] else None
+  | WHwC st, CW _ =>      (* if not self.connected: return (7fa6a60) *)
+      ret (go (if conn s then WHwF st else hw_exit st)) [LR AConn]
   | WHwF st, CW _ => if pend s <=? 0 then ret (go (WHwL1 st)) [] else None
   | WHwF st, CWSend _ r =>
       if pend s <=? 0 then None else
@@ -555,6 +560,7 @@ Definition parked_o (p : wpc) : bool :=
   match p with WHwEPk _ _ | WHwLPk _ => true | _ => false end.
 (* parked by the exception branch of _flush_outbufs_below_high_watermark when the
    channel was already closed (connected = False): the class of finding park-after-close *)
+(* (unreachable since 7fa6a60: the connected re-check WHwC; Proof/ChanWakeL4.v) *)
 Definition parked_after_close (p : wpc) : bool :=
   match p with WHwEPk _ false => true | _ => false end.
 
@@ -567,9 +573,8 @@ Definition closing_closed (s : state) : bool := negb (wc s || cwf s) || closed s
 Definition c05_ok (s : state) : bool :=
   no_pending_output s && no_unserved_request s && no_producer_parked s && closing_closed s.
 
-(* the classes of the known findings, as predicates on the state *)
-Definition in_kf_class (s : state) : bool :=
-  taint s || existsb parked_after_close (ws s).
+(* the class of the known finding, as a predicate on the state *)
+Definition in_kf_class (s : state) : bool := taint s.
 
 Definition is_env (ch : choice) : bool :=
   match ch with CClient _ | CClientClose => true | _ => false end.
